@@ -303,15 +303,14 @@ def discharge(ob: Obligation, timeout_ms=10000, use_cvc5=True, cross_check=False
         except Exception:
             smt = None
         if smt is not None:
-            for name, fn in (("z3-4.8.12", _z3_old), ("cvc5-1.0.3", _cvc5)):
-                v = fn(smt, timeout_ms)
-                if v == "unsat":
-                    ob.verdict, ob.solver = "discharged", name
-                    break
-                if v == "sat":
-                    ob.verdict, ob.solver = "refuted", name
-                    ob.note += f" [refuted by {name}; no model extracted]"
-                    break
+            # the two command-line back ends run side by side; the first decisive answer (sat/unsat) wins
+            name, v = _race_cli([("z3-4.8.12", _z3_old_job(smt, timeout_ms)), ("cvc5-1.0.3", _cvc5_job(smt, timeout_ms))],
+                                timeout_ms)
+            if v == "unsat":
+                ob.verdict, ob.solver = "discharged", name
+            elif v == "sat":
+                ob.verdict, ob.solver = "refuted", name
+                ob.note += f" [refuted by {name}; no model extracted]"
     if ob.verdict == "unknown":
         ob.note += f" [z3: {why}]"
     if cross_check and ob.verdict == "discharged" and ob.solver.startswith("z3"):
@@ -356,6 +355,65 @@ def _run_cli(cmd, text, timeout_ms):
         return "unknown"
     finally:
         os.unlink(path)
+
+
+def _race_cli(jobs, timeout_ms):
+    """jobs: [(name, (argv, smt text))]. Runs all solvers concurrently; returns (name, "sat"/"unsat") of the first
+    decisive one (the others are killed) or (None, "unknown"). A parse error is never read as a verdict."""
+    procs = []
+    try:
+        for name, (cmd, text) in jobs:
+            fh = tempfile.NamedTemporaryFile("w", suffix=".smt2", delete=False)
+            fh.write(text)
+            fh.close()
+            out = tempfile.TemporaryFile("w+")
+            try:
+                p = subprocess.Popen(cmd + [fh.name], stdout=out, stderr=subprocess.STDOUT, text=True)
+            except OSError:
+                out.close()
+                os.unlink(fh.name)
+                continue
+            procs.append([name, p, fh.name, out])
+        deadline = time.time() + timeout_ms / 1000 + 5
+        live = list(procs)
+        while live and time.time() < deadline:
+            for rec in list(live):
+                name, p, path, out = rec
+                if p.poll() is None:
+                    continue
+                live.remove(rec)
+                out.seek(0)
+                txt = out.read()
+                if "(error" in txt:
+                    continue
+                lines = txt.strip().splitlines()
+                if lines and lines[0] in ("sat", "unsat"):
+                    return name, lines[0]
+            time.sleep(0.02)
+        return None, "unknown"
+    finally:
+        for name, p, path, out in procs:
+            if p.poll() is None:
+                p.kill()
+                try:
+                    p.wait(timeout=5)
+                except Exception:  # noqa
+                    pass
+            out.close()
+            try:
+                os.unlink(path)
+            except OSError:
+                pass
+
+
+def _z3_old_job(smt, timeout_ms):
+    return ["/usr/bin/z3", f"-T:{max(1, timeout_ms // 1000)}"], _std_nth(smt)
+
+
+def _cvc5_job(smt, timeout_ms):
+    import re
+    text = re.sub(r"\(_ ([^ ()]+) 0\)", r"\1", _std_nth(smt))  # z3 5.x prints recursive-function symbols as (_ f 0)
+    return ["/usr/bin/cvc5", "--strings-exp", f"--tlimit={timeout_ms}"], "(set-logic ALL)\n" + text
 
 
 def _std_nth(smt):
